@@ -240,6 +240,19 @@ def gen_tags(rnd):
     return dict(nchan=nchan, threads=threads, consumers=pre, events=ev)
 
 
+def gen_consume_add(rnd):
+    """C14: a thread keeps consuming (process_data_events) while another registers a new
+    consumer on the same channel; the broker starts delivering to it right away."""
+    n = rnd.randrange(2, 5)
+    ev = [(0, ('deliver', 1, b'ct', b'a0'))]
+    for j in range(1, n):
+        ev.append((1, ('deliver', 1, rnd.choice([b'c2', b'c2', b'ct']), b'm%d' % j)))
+    threads = [[(1, ('drain', n))], [(1, ('consume', b'c2'))]]
+    if rnd.random() < 0.3:
+        threads.append([(1, ('declare', b'x'))])
+    return dict(nchan=1, threads=threads, consumers=[(1, b'ct')], events=ev, max_steps=12000)
+
+
 def gen_consume(rnd):
     """C03: one thread drains n deliveries while the broker sends them (bodies of 0-3 frames)
     mixed with returned messages, and other threads publish / ack / declare on the same channel."""
